@@ -146,6 +146,12 @@ func strPiece(src, dec []byte, kind int) ([]byte, []byte) {
 		return append(src, `\\`...), append(dec, '\\')
 	case 4:
 		return append(src, `\/`...), append(dec, '/')
+	case 6:
+		// a lone surrogate escape decodes to U+FFFD; what follows it is kept
+		return append(src, `\ud800`...), append(dec, 0xef, 0xbf, 0xbd)
+	case 7:
+		// a surrogate pair: U+1F600
+		return append(src, `\ud83d\ude00`...), append(dec, 0xf0, 0x9f, 0x98, 0x80)
 	}
 	// \u00XY with symbolic hex digits X in 2..7 (printable ASCII)
 	h1 := v.Byte()
@@ -602,8 +608,9 @@ var c02RegexCases = [][3]string{
 
 // c02RegexPieces: a piece of a document string as written and as decoded.
 var c02RegexPieces = [][2]string{
-	{`a`, `a`}, {`a`, `a`}, {`/`, `/`}, {`\/`, `/`}, {`b`, `b`}, {`\t`, "\t"}, {` `, ` `},
-	{`A`, `A`}, {`A`, `A`}, {`\\`, `\`}, {`B`, `B`}, {`u0041`, `u0041`}, {`BC`, `BC`},
+	{`a`, `a`}, {`\u0061`, `a`}, {`/`, `/`}, {`\/`, `/`}, {`b`, `b`}, {`\t`, "\t"}, {` `, ` `},
+	{`A`, `A`}, {`\u0041`, `A`}, {`\\`, `\`}, {`B`, `B`}, {`u0041`, `u0041`}, {`BC`, `BC`},
+	{`\ud800`, "\ufffd"}, {`\ud83d\ude00`, "\U0001f600"}, {`bcdefg`, `bcdefg`},
 }
 
 // ZZC02Regex: the regex rule is an RE2 search in the decoded document string: strings written with
